@@ -131,6 +131,14 @@ func craftedCases() []craftedCase {
 		{Obj: "doc:1", Rel: "viewer", User: "user:*", Cond: "c1", Ctx: []fga.KV{{K: "x", V: 5}}},
 		{Obj: "doc:2", Rel: "viewer", User: "user:*"},
 	}, rq: fga.Req{Obj: "doc:" + placeholder, Rel: "viewer", User: "user:y"}})
+	// wildcard subject and a contextual tuple that names a concrete user of that type
+	wc := &fga.Model{Types: []*fga.TypeDef{{Name: "user"},
+		{Name: "group", Rels: []*fga.RelDef{
+			{Name: "a", Rewrite: this(), Restrs: []fga.Restr{u, {Typ: "user", Wild: true}}},
+		}}}}
+	out = append(out, craftedCase{m: wc, tuples: []fga.Tuple{{Obj: "group:b", Rel: "a", User: "user:*"}},
+		ctxT: []fga.Tuple{{Obj: "group:c", Rel: "a", User: "user:x"}},
+		rq:   fga.Req{Obj: "group:" + placeholder, Rel: "a", User: "user:*"}})
 	// the flag of an earlier edge must survive later unflagged edges: group#member is an intersection,
 	// doc#viewer only names the userset
 	acc := &fga.Model{Types: []*fga.TypeDef{{Name: "user"},
@@ -499,7 +507,13 @@ func watchdog(d time.Duration, f func() string) string {
 }
 
 func (w *world) list(e engine, limit uint32, deadline time.Duration) string {
-	return watchdog(deadline+4*time.Second, func() string { return w.list0(e, limit, deadline) })
+	t0 := time.Now()
+	r := watchdog(deadline+4*time.Second, func() string { return w.list0(e, limit, deadline) })
+	// a run that is not meant to be cut but came close to its deadline (starved machine) claims nothing
+	if deadline == stdDeadline && r != "HANG" && time.Since(t0) > deadline*3/4 {
+		return "E:deadline"
+	}
+	return r
 }
 
 func (w *world) list0(e engine, limit uint32, deadline time.Duration) string {
